@@ -576,13 +576,13 @@ class Sel(Family):
         orders = [None, [4, 8, 1, 6, 3], None, [8, 6, 4, 3, 1]]     # None: np.unique list of labels 1 3 4 6 8
         idx = 0
         for band_only, pairs in ((False, list(ladder(44))), (True, list(ladder(26)))):
-            for C, E in pairs:
+            for pi, (C, E) in enumerate(pairs):
                 # axis assignments: (k kind, swap, k map); u always C + E u
                 um = (C, E)
                 combos = [("cat", False, (Fr(0), Fr(1))), ("cat", True, (Fr(0), Fr(1))),
                           ("num", idx % 2 == 1, (Fr(0), Fr(1))),      # second numeric axis of order 1
                           ("num", idx % 2 == 0, (C - E, E / 2))]      # ... in the same units (uniform)
-                for kk, swap, km in combos:
+                for ci, (kk, swap, km) in enumerate(combos):
                     if not band_only:
                         tpls = list(self.LADDER_EXACT)
                         if kk == "cat" and idx % 4 == 0:
@@ -600,8 +600,12 @@ class Sel(Family):
                             tpls += self.LADDER_ISO
                         elif kk == "cat" and E >= Fr(1, 2 ** 30):
                             tpls += self.LADDER_ISO[:1]
-                    for tpl in tpls:
+                    for ti, tpl in enumerate(tpls):
                         idx += 1
+                        # quick: every template on every ladder pair under two of the four axis
+                        # assignments (alternating); thorough: the full product
+                        if not thorough and (ci + ti + pi) % 2:
+                            continue
                         use_pre = tpl[-1] == "pre"
                         kmap = km
                         if tpl[0] == "circle":
@@ -822,7 +826,10 @@ class Pli(Family):
             lys = [Q(C + E * Fr(j, 8)) for j in range(-20, 21)]
             for tpl in LADDER_POLYS:
                 vs = [[Q(km[0] + km[1] * Fr(k)), Q(C + E * Fr(u))] for k, u in tpl]
-                for k in (0, 1, 2, 3, 4, Fr(1, 2), Fr(5, 2), Fr(9, 2)):
+                lines = (0, 1, 2, 3, 4, Fr(1, 2), Fr(5, 2), Fr(9, 2))
+                if tier == "quick":     # half of the lines, alternating from pair to pair
+                    lines = lines[i % 2::2]
+                for k in lines:
                     yield [vs, Q(km[0] + km[1] * Fr(k)), lys, "exact"]
         ys = [Q(Fr(a, 8) + Fr(1, 32)) for a in range(-12, 40)]
         polys = [[[Fr(a), Fr(b)] for a, b in p] for p in FIXED_POLYS] + list(grid_polys(rng, 250 if tier == "quick" else 8000, 8))
@@ -913,7 +920,7 @@ PROP = Property(
               "C09.rect_categorical_rotated_witness"],
     families=[FromRange(), Mpl(), Pli(), Sel()],
     trusted_base=["numpy comparisons / searchsorted / unique, matplotlib Path.contains_points (literal crossing rule, validated by the mpl L0 family), IEEE doubles on exactly representable inputs"],
-    assumptions=["float evaluation of polygon/line intersections, rotations and the 100-gon approximation of circles/ellipses agrees with exact arithmetic outside the recorded boundary band (eps per case: 0 for exact paths, 2^-20 for float-affected paths, radius/900 for polygonised circles/ellipses)"],
+    assumptions=["float evaluation of polygon/line intersections, rotations and the 100-gon approximation of circles/ellipses agrees with exact arithmetic outside the recorded boundary band (strata with coordinates of order 1: eps per case 0 for exact paths, 2^-20 for float-affected paths, radius/900 for polygonised circles/ellipses; scale-ladder strata (extents 2^-40..2^40, centres up to +-2^50): decided by the Lean driver from the exact inputs -- 0 when every float intermediate is a double, otherwise RELATIVE to the local scale: 2^-20 of the region's extent on each numeric axis / of the radius / of the shorter side, radius/900 for polygonised circles and ellipses)"],
     rule="non-trivial = the mask contains both selected and unselected elements (sel), a non-empty category list (frange), some inside point (mpl), some segment (pli); distinct = distinct (family, input) hash",
 )
 for _f, _share in zip(PROP.families, (0.08, 0.08, 0.12, 0.72)):
